@@ -288,3 +288,120 @@ Proof.
   - vm_compute. repeat split; try discriminate; try (intros o H; inversion H; subst; simpl; discriminate).
     do 2 eexists. repeat split.
 Qed.
+
+(* ------------------------------------------------------------------------------------------------
+   Local lock across PROCESSES, under every process topology (Model/ProcLock.v; imported here, after the
+   statements above, so that its names shadow nothing they use).
+   Writers are FileLock handles placed in OS processes by an ARBITRARY `proc : hid -> pid`: separate processes,
+   several handles in one process, and processes created by fork() -- `LFork h h'` makes h' (in another process) a
+   copy of the handle OBJECT h and lets it INHERIT h's open descriptors, i.e. share h's open file descriptions;
+   the kernel's lock belongs to the description (gen_lock_disc, regenerated from the primitive the source calls:
+   Gen/GenFileLock.v), goes away with an unlock through it or with the LAST descriptor of it, and a process death
+   closes the descriptors of that process only.  Every handle runs the regenerated program of
+   FileLock._try_acquire_once / release one kernel primitive per event, and EVERY event list is a schedule.
+   Hypothesis on the environment, spelled out in every statement: `forks_quiescent` -- a fork copies handles that
+   are idle at that moment: before their first use, after a completed acquire / release cycle, after a refused
+   attempt (fork while a handle HOLDS duplicates the holder -- that is fork(2): C01_fork_while_holding_not_exclusive).
+   ------------------------------------------------------------------------------------------------ *)
+Require Import DS.Model.ProcLockBase DS.Gen.GenFileLock DS.Model.ProcLock DS.Model.ProcLockKeep.
+Require DS.Proofs.ProcLockProofs DS.Proofs.ProcLockC19Proofs.
+Close Scope Z_scope.
+
+(* At most one handle holds, among all handles of all processes, forked workers included; and the handle that reports
+   is_held() (its flag) is exactly the one whose description the kernel names as the lock's owner: no handle ever
+   reports a lock it does not hold. *)
+Theorem C19_proc_mutex_any_topology : forall (proc : hid -> pid) evs,
+  forks_quiescent gen_lock_disc proc linit evs ->
+  let s := lrun gen_lock_disc proc linit evs in
+  (forall h1 h2, lholds s h1 -> lholds s h2 -> h1 = h2) /\ (forall h, lholds s h <-> lock_view s = Some h).
+Proof. exact ProcLockC19Proofs.gen_lock_mutex_and_flag. Qed.
+Print Assumptions C19_proc_mutex_any_topology.
+
+(* A holder's death releases the lock: after the death of the holder's process nobody holds, and EVERY idle handle of
+   another process -- a separate process, a forked sibling, the forked parent -- is granted on its next attempt and
+   is then the only holder. *)
+Theorem C19_proc_death_frees : forall (proc : hid -> pid) evs h,
+  forks_quiescent gen_lock_disc proc linit evs ->
+  let s := lrun gen_lock_disc proc linit evs in
+  lholds s h ->
+  exists s', lstep gen_lock_disc proc s (LKill (proc h)) = Some s' /\ lock_view s' = None /\ (forall k, ~ lholds s' k)
+    /\ (forall w, l_h s w = HIdle -> proc w <> proc h ->
+          exists s'', lrun_strict gen_lock_disc proc s' (map (LStep w) attempt_granted_events) 0 = inl s''
+                      /\ lholds s'' w /\ lock_view s'' = Some w /\ (forall k, lholds s'' k -> k = w)).
+Proof. exact ProcLockC19Proofs.gen_lock_death_frees. Qed.
+Print Assumptions C19_proc_death_frees.
+
+(* acquire() succeeds only through a granted attempt, and an attempt is granted only when NO handle of any process
+   holds; afterwards the acquirer is the only holder. *)
+Theorem C19_proc_granted_only_when_free : forall (proc : hid -> pid) evs h s',
+  forks_quiescent gen_lock_disc proc linit evs ->
+  let s := lrun gen_lock_disc proc linit evs in
+  lstep gen_lock_disc proc s (LStep h (KTry true)) = Some s' ->
+  (forall k, ~ lholds s k) /\ lholds s' h /\ (forall k, lholds s' k -> k = h).
+Proof. exact ProcLockC19Proofs.gen_lock_granted_only_when_free. Qed.
+Print Assumptions C19_proc_granted_only_when_free.
+
+(* A blocked acquirer never reports success while another holder is live: once k holds, through ANY further events
+   (any interleaving of any handles in any processes: polling rounds of the acquirer, other contenders, forks of idle
+   handles, deaths of other processes) that contain neither k's own unlock nor the death of k's process, k still
+   holds, the acquirer h does not, the kernel's `granted` answer to h is not enabled and its `refused` answer is --
+   so h's polling loop can only end in the timeout of C19_flock_timeout. *)
+Theorem C19_proc_blocked_never_succeeds : forall (proc : hid -> pid) evs evs2 k h,
+  forks_quiescent gen_lock_disc proc linit (evs ++ evs2) ->
+  lholds (lrun gen_lock_disc proc linit evs) k ->
+  Forall (fun e => ~ ProcLockC19Proofs.ends_holding proc k e) evs2 -> h <> k ->
+  let s := lrun gen_lock_disc proc linit (evs ++ evs2) in
+  lholds s k /\ ~ lholds s h /\ lstep gen_lock_disc proc s (LStep h (KTry true)) = None
+  /\ (forall d, l_h s h = HOpened d ->
+        exists s', lstep gen_lock_disc proc s (LStep h (KTry false)) = Some s' /\ lholds s' k /\ l_h s' h = HRefused d).
+Proof. exact ProcLockC19Proofs.gen_lock_blocked_never_succeeds. Qed.
+Print Assumptions C19_proc_blocked_never_succeeds.
+
+(* WHY this holds of the code: the regenerated program opens the lock file per attempt and closes it on refusal and in
+   release(), so an idle handle has NO descriptor of the lock file and a fork of idle handles inherits nothing. *)
+Theorem C19_proc_idle_handle_has_no_descriptor : forall (proc : hid -> pid) evs,
+  forks_quiescent gen_lock_disc proc linit evs ->
+  let s := lrun gen_lock_disc proc linit evs in
+  (forall h d, l_h s h = HIdle -> ~ In (d, h) (l_open s))
+  /\ (forall h h' s', l_h s h = HIdle -> lstep gen_lock_disc proc s (LFork h h') = Some s' ->
+        l_open s' = l_open s /\ l_next s' = l_next s /\ l_owner s' = l_owner s /\ forall k, l_h s' k = l_h s k).
+Proof. exact ProcLockProofs.gen_lock_fork_inherits_nothing. Qed.
+Print Assumptions C19_proc_idle_handle_has_no_descriptor.
+
+(* ... and what a handle that KEPT its descriptor across acquisitions would do (Model/ProcLockKeep.v: same kernel, the
+   close left out).  Refutation witnesses, both strict (enabled) runs of the model under the regenerated discipline:
+   (1) parent 0 goes through one acquire / release cycle, forks worker 1 while idle -- the worker inherits the kept
+       descriptor --, the parent acquires, and the worker's attempt through the SHARED description is granted too: two
+       holders in two processes, the blocked acquirer reports success;
+   (2) the forked worker acquires and its process dies: the parent still has the shared description open, the kernel's
+       lock survives the holder's death and an independent handle 2 in a third process is refused. *)
+Definition c19_own_proc (h : hid) : pid := h.
+Theorem C19_proc_kept_descriptor_refuted :
+  (exists s, krun_strict gen_lock_disc c19_own_proc linit
+               [KEv (LStep 0 KOpen); KEv (LStep 0 (KTry true)); KUnlockKeep 0; KForkKeep 0 1;
+                KEv (LStep 0 (KTry true)); KEv (LStep 1 (KTry true))]%nat 0 = inl s
+             /\ lholds s 0%nat /\ lholds s 1%nat /\ c19_own_proc 0%nat <> c19_own_proc 1%nat)
+  /\ (exists s, krun_strict gen_lock_disc c19_own_proc linit
+               [KEv (LStep 0 KOpen); KEv (LStep 0 (KTry true)); KUnlockKeep 0; KForkKeep 0 1;
+                KEv (LStep 1 (KTry true)); KEv (LKill 1); KEv (LStep 2 KOpen); KEv (LStep 2 (KTry false))]%nat 0 = inl s
+             /\ (forall h, ~ lholds s h) /\ l_owner s <> None /\ l_h s 1%nat = HDead).
+Proof. exact ProcLockC19Proofs.kept_descriptor_refuted. Qed.
+Print Assumptions C19_proc_kept_descriptor_refuted.
+
+(* Non-vacuity of the process-topology statements: parent 0 uses its lock once and forks workers 1 and 2 (quiescent
+   forks); worker 1 acquires; the parent's attempt is refused; worker 1's process dies; the parent is granted. *)
+Definition ex_procs : list levent :=
+  [LStep 0 KOpen; LStep 0 (KTry true); LStep 0 KUnlock; LStep 0 KClose; LFork 0 1; LFork 0 2;
+   LStep 1 KOpen; LStep 1 (KTry true); LStep 0 KOpen; LStep 0 (KTry false); LStep 0 KCloseRefused]%nat.
+Example C19_proc_nonvacuous :
+  forks_quiescent gen_lock_disc c19_own_proc linit ex_procs
+  /\ lholds (lrun gen_lock_disc c19_own_proc linit ex_procs) 1%nat
+  /\ l_h (lrun gen_lock_disc c19_own_proc linit ex_procs) 0%nat = HIdle
+  /\ (exists s, lrun_strict gen_lock_disc c19_own_proc linit
+                  (ex_procs ++ [LKill 1; LStep 0 KOpen; LStep 0 (KTry true)]%nat) 0 = inl s /\ lholds s 0%nat)
+  /\ Forall (fun e => ~ ProcLockC19Proofs.ends_holding c19_own_proc 1%nat e) [LStep 0 KOpen; LStep 0 (KTry false); LStep 0 KCloseRefused]%nat.
+Proof.
+  split; [vm_compute; repeat split|]. split; [eexists; vm_compute; reflexivity|]. split; [vm_compute; reflexivity|].
+  split; [eexists; split; [vm_compute; reflexivity | eexists; vm_compute; reflexivity]|].
+  repeat constructor; intros [E|E]; discriminate.
+Qed.
